@@ -2818,6 +2818,15 @@ def generator_stream(ctx) -> None:
 K_UNORDERED = (23, 26)  # Graph.remove / Graph.sort iterate a (frozen)set: their sub-calls are compared as multisets
 K_STRIP = ("badAttr",)  # a non-Attr attribute argument: type-incorrect, the (typed) kernel op cannot carry it
 K_ATTR_SLOT = 32
+K_NOT_INSTANTIATED_SLOT = 999  # Model/JournalKernel.lean `notInstantiated`
+# the kernel ops (as the driver takes them) whose call trees Model/JournalKernel.lean instantiates.  An op outside this
+# set (the C01 alphabet grew) is reported as a broken correspondence that names it, once per op name.
+K_INSTANTIATED = {
+    "newValue", "setConst", "newNode", "newGraph", "replaceInput", "resizeInputs", "resizeOutputs", "rauw", "io", "init",
+    "setName", "append", "extend", "insertAfter", "insertBefore", "remove", "sort", "sortOk", "sortCycle", "attrEdit",
+    "attrSet", "attrDel", "attrClear", "setNodeName", "setOpType", "clearConst", "tapeInitializer", "builderNode",
+    "rauwMany", "renameValues", "replaceNodesAndValues",
+}
 
 
 def _kreal_class():
@@ -2944,6 +2953,7 @@ def _k_run(R: Real, ops: list, journals_at, nest: int):
     tr = Tracer.get(R)
     journals = [R.J.Journal() for _ in range(nest)]
     trees, outcomes, mops, rets = [], [], [], []
+    entries: list = [[] for _ in range(nest)]
     enc_of: dict = {}
 
     def refresh():
@@ -2973,6 +2983,12 @@ def _k_run(R: Real, ops: list, journals_at, nest: int):
         if new_funcs:
             sp["fn"] = new_funcs[0]
         refresh()
+        # entries written during this call, with the identity the objects have NOW (an object whose constructor was
+        # rejected never gets an index of its own: it is named by the index it would have received)
+        for ji, j in enumerate(journals):
+            for e in j.entries[len(entries[ji]):]:
+                obj = e.ref() if e.ref is not None else None
+                entries[ji].append([e.operation, enc_of.get(reg.ids.get(id(obj), -1), -1)])
         f = forest([e for e in evs if e[0] in ("start", "finish")])
         trees.append([_k_tree(t, enc_of) for t in f])
         outcomes.append(o)
@@ -2989,9 +3005,6 @@ def _k_run(R: Real, ops: list, journals_at, nest: int):
         if journals_at >= len(ops):
             for j in journals:
                 st.enter_context(j)
-    refresh()
-    ids = {id(o): enc_of[i] for i, o in enumerate(reg.objs)}
-    entries = [[[e.operation, ids.get(id(e.ref()), -1)] for e in j.entries] for j in journals]
     return trees, outcomes, mops, real.snapshot(), entries, rets
 
 
@@ -3027,6 +3040,7 @@ def kernel_stream(ctx, cases: list, stream: str = "kernel") -> None:
     (3) the model's own run agrees with C20_transparent_kernel_spelled (world, log, calls)."""
     R = Real.get()
     reqs, reals = [], []
+    p_mops_of: dict = {}
     for case in cases:
         ops = case["ops"]
         if R.pristine_problems():
@@ -3037,13 +3051,14 @@ def kernel_stream(ctx, cases: list, stream: str = "kernel") -> None:
         if left:
             R.repair()
         reqs.append({"m": "journal.kernel", "fuel": 8, "nj": 3, "ops": p_mops, "from": case["from"], "nest": list(range(case["nest"]))})
+        p_mops_of[id(case)] = p_mops
         reals.append((p_trees, p_out, j_trees, j_out, p_snap == j_snap, j_entries, left, p_mops == j_mops, p_rets, j_rets))
     answers = lean_batch(reqs)
     for case, (p_trees, p_out, j_trees, j_out, same_snap, j_entries, left, same_mops, p_rets, j_rets), ans in zip(cases, reals, answers):
         ops = case["ops"]
         ctx.case(["kernel", case], nontrivial=len(ops) > 0, stream=stream, sample=case if len(ops) <= 4 else None,
                  kernel_len=min(len(ops) // 4 * 4, 32), nest=case["nest"])
-        for op, o, mop in zip(ops, p_out, reqs[0]["ops"] if False else [None] * len(ops)):
+        for op, o in zip(ops, p_out):
             label = op["op"] + ("." + op["m"] if op["op"] in ("io", "init") else "")
             ctx.count(f"kernel-op={label}:{o}")
             if op.get("via"):
@@ -3051,6 +3066,13 @@ def kernel_stream(ctx, cases: list, stream: str = "kernel") -> None:
             if op["op"] == "attrEdit":
                 ctx.count(f"kernel-spelling=attr-{op.get('spell') or ('clear' if op.get('clear') else 'setitem')}")
         sig = f"{stream}"
+        unknown = sorted({m["op"] for m in p_mops_of[id(case)] if m["op"] not in K_INSTANTIATED})
+        if unknown:
+            for name in unknown:
+                ctx.disagree(f"kernel alphabet grew: operation '{name}' is not instantiated in C20's call trees "
+                             "(lean/IrVerif/Model/JournalKernel.lean opTrees / convTrees; harness/c20.py K_INSTANTIATED)",
+                             f"kernel-op:{name}", None, name)
+            continue
         # oracle: transparent on the kernel alphabet
         if p_out != j_out or not same_snap or not same_mops:
             ctx.fail(f"{sig}/transparent", "a C01-alphabet history gives other outcomes / another IR inside journals", {"case": case, "plain": p_out, "journaled": j_out})
@@ -3064,9 +3086,14 @@ def kernel_stream(ctx, cases: list, stream: str = "kernel") -> None:
         if left:
             ctx.fail(f"{sig}/restore-final", "classes not as before after the history", {"case": case, "left": left[:6]})
         if "err" in ans:
-            ctx.disagree("model driver error: " + str(ans["err"]), case, ans, None)
+            ctx.disagree("model driver error (kernel history): " + str(ans["err"])[:200], f"driver-error:{str(ans['err'])[:80]}", ans, None)
             continue
         m_trees = [[_k_model_tree(t) for t in ts] for ts in ans["trees"]]
+        for i, ts in enumerate(m_trees):
+            if any(t[0] == K_NOT_INSTANTIATED_SLOT for t in ts):
+                name = p_mops_of[id(case)][i]["op"]
+                ctx.disagree(f"kernel alphabet grew: operation '{name}' is mapped to `notInstantiated` in Model/JournalKernel.lean",
+                             f"kernel-op:{name}", None, name)
         for i, (a, b) in enumerate(zip(m_trees, p_trees)):
             if a != b:
                 op = ops[i]
